@@ -174,10 +174,50 @@ func ruleEnv(c *Ctx) {
 	var hostExpr ast.Expr
 	var envSpliceNode *Node
 	hostIntoSlice := false // the host environment is appended to the control-variable slice itself
+	hostPrepended := false // ... or put in front of it: env = append(hostEnv(), env...)
 	addElems := func(n *Node, elems []ast.Expr, via bool) {
 		for _, el := range elems {
 			if k := p.envKeyOf(f, el); k != "" {
 				entries = append(entries, envEntry{key: k, node: n, call: el, viaEnv: via})
+			}
+		}
+	}
+	// a local that stands for cmd.Env: bound from it (env := cmd.Env), only ever
+	// extended by env = append(env, ...), and stored back (cmd.Env = env) - the
+	// shape an extracted "build the environment" helper leaves after inlining
+	cmdEnvAlias := map[types.Object]bool{}
+	var aliasBack *Node // the node that stores such a local back into cmd.Env
+	backNode := map[types.Object]*Node{}
+	{
+		fromEnv, back, other := map[types.Object]int{}, map[types.Object]int{}, map[types.Object]int{}
+		for _, n := range g.Nodes {
+			a, ok := n.Ast.(*ast.AssignStmt)
+			if !ok || len(a.Lhs) != len(a.Rhs) {
+				continue
+			}
+			for i, l := range a.Lhs {
+				r := ast.Unparen(a.Rhs[i])
+				if v, ok := identObj(info, l).(*types.Var); ok && !v.IsField() {
+					if SelField(info, r) == envF {
+						fromEnv[v]++
+					} else if call, isC := r.(*ast.CallExpr); isC && p.CalleeName(f, call) == "builtin.append" && len(call.Args) >= 1 && identObj(info, call.Args[0]) == types.Object(v) {
+						// an extension of itself
+					} else {
+						other[v]++
+					}
+				}
+				if SelField(info, l) == envF {
+					if v, ok := identObj(info, r).(*types.Var); ok && !v.IsField() {
+						back[v]++
+						backNode[v] = n
+					}
+				}
+			}
+		}
+		for v, k := range fromEnv {
+			if k == 1 && back[v] == 1 && other[v] == 0 {
+				cmdEnvAlias[v] = true
+				aliasBack = backNode[v]
 			}
 		}
 	}
@@ -210,13 +250,20 @@ func ruleEnv(c *Ctx) {
 				if !ok || p.CalleeName(f, call) != "builtin.append" || len(call.Args) < 2 {
 					continue
 				}
-				toCmdEnv := SelField(info, l) == envF
+				toCmdEnv := SelField(info, l) == envF || cmdEnvAlias[identObj(info, l)]
 				toEnvSlice := envSlice != nil && identObj(info, l) == envSlice
 				if !toCmdEnv && !toEnvSlice {
 					continue
 				}
 				if call.Ellipsis.IsValid() {
 					src := ast.Unparen(call.Args[1])
+					if toEnvSlice && !toCmdEnv && len(call.Args) == 2 && identObj(info, src) == types.Object(envSlice) && identObj(info, call.Args[0]) != types.Object(envSlice) {
+						// env = append(hostEnv(), env...): the host environment is put in
+						// front of the control variables collected so far
+						hostNode, hostExpr = n, ast.Unparen(call.Args[0])
+						hostPrepended = true
+						continue
+					}
 					if envSlice != nil && (identObj(info, src) == envSlice || identObj(info, ast.Unparen(p.Deref(f, src))) == envSlice) {
 						envSpliceNode = n
 						continue
@@ -229,6 +276,11 @@ func ruleEnv(c *Ctx) {
 				addElems(n, call.Args[1:], toEnvSlice)
 			}
 		}
+	}
+	if envSpliceNode == nil && envSlice == nil && aliasBack != nil {
+		// no intermediate slice: the variables were appended to the stand-in for
+		// cmd.Env directly, and storing it back is what makes them reach cmd.Env
+		envSpliceNode = aliasBack
 	}
 	for i := range entries {
 		entries[i].guards = p.featureGuards(f, entries[i].node)
@@ -341,7 +393,16 @@ func ruleEnv(c *Ctx) {
 				continue
 			}
 			seen := g.ReachAfter(cn, nil, nil)
-			if _, ok := seen[hostNode]; ok {
+			_, ok := seen[hostNode]
+			if hostPrepended {
+				// the host environment reaches cmd.Env with the slice: a variable
+				// appended to cmd.Env directly before that splice precedes it
+				ok = false
+				if cn != envSpliceNode && envSpliceNode != nil {
+					_, ok = seen[envSpliceNode]
+				}
+			}
+			if ok {
 				bad = true
 				c.R.Violate("R-ORDER/O5", p.Pos(cn.Ast), f.Name, "host environment before control variables",
 					"a control variable is appended to cmd.Env before the inherited host environment, so a host value of the same name would win (later duplicates win)", nil)
